@@ -7,10 +7,12 @@ package main
 
 import (
 	"errors"
+	"strconv"
 	"strings"
 
 	"github.com/iotaledger/iota.go/consts"
 	"github.com/iotaledger/iota.go/trinary"
+	"github.com/wollac/iota-crypto-demo/pkg/bip32path"
 	"github.com/wollac/iota-crypto-demo/pkg/curl"
 	"github.com/wollac/iota-crypto-demo/pkg/encoding/b1t6"
 	"github.com/wollac/iota-crypto-demo/pkg/encoding/b1t8"
@@ -84,6 +86,23 @@ var genGenBech32, genGenVrf func(g *G)
 
 func init() {
 	mirrorOps["bech32.dec"], mirrorOps["bech32.enc"] = "gen.bech32.dec", "gen.bech32.enc"
+	// pkg/bip32path: ParsePath / Path.String answered by the generated code; here the error is reported by kind
+	mirrorOps["path.parse"], mirrorOps["path.print"] = "gen.path.parse", "gen.path.print"
+	execs["gen.path.parse"] = func(a []string) string {
+		p, err := bip32path.ParsePath(string(unhx(a[0])))
+		switch {
+		case err == nil:
+			return "ok " + csvU32(p)
+		case errors.Is(err, bip32path.ErrInvalidPathFormat):
+			return "err ErrInvalidPathFormat"
+		case errors.Is(err, strconv.ErrRange):
+			return "err ErrRange"
+		case errors.Is(err, strconv.ErrSyntax):
+			return "err ErrSyntax"
+		}
+		return "err other"
+	}
+	execs["gen.path.print"] = func(a []string) string { return hx([]byte(bip32path.Path(uncsvU32(a[0])).String())) }
 	// pkg/merkle: every op of the C15 stream is also answered by the generated Hasher.Hash / EmptyRoot
 	for _, op := range []string{"merkle.hash", "merkle.gen", "merkle.generrs", "merkle.empty"} {
 		op := op
